@@ -726,6 +726,7 @@ func gen(r *rand.Rand, tier string) []string {
 			out = append(out, randIntCase(r))
 		}
 	}
+	out = append(out, round2Cases(r, tier)...)
 	nBig := 3
 	if tier == "thorough" {
 		nBig = 60
